@@ -79,6 +79,8 @@ def run(R):
         return R.finish()
     R.pkgs = pkgs
     R.prove("Codec")
+    if not R.quick:
+        R.coqchk("Codec", ["Codec.TotalWr", "Codec.Hand", "Codec.Alloc"])
     b = cc.build(R, pkgs)
     if b is None:
         return R.finish()
@@ -232,3 +234,57 @@ def run(R):
     else:
         R.notes.append("receive-path half of C04 (stream framing, LP reassembly, dispatch: checks/C04_face.py) is not yet included in this evidence")
     return R.finish()
+
+
+def _replay(R, path):
+    """re-run the input of a replay file (its trace_line: a D or HR line) in the supervised child and on the model"""
+    body = json.load(open(path))
+    line = body.get("trace_line")
+    if not line:
+        print(json.dumps(body, indent=1)[:3000]); return 0
+    pkgs = cc.translate(R)
+    if pkgs is None:
+        return R.finish()
+    R.pkgs = pkgs
+    vlib.coq_make("Codec")
+    b = cc.build(R, pkgs)
+    if b is None:
+        return R.finish()
+    rexe, hexe = b
+    f = line.split(" ")
+    cases = os.path.join(cc.rundir(R), "cases")
+    if f[0] == "D":
+        open(cases, "w").write("P %s %s %s %s %s %s\n" % (f[1], f[2], f[3], f[4], f[5], re.sub(r";alloc=.*", "", f[9]) if len(f) > 9 else "replay"))
+    else:
+        open(cases, "w").write("H %s %s %s %s\n" % (f[1], f[2], f[3], re.sub(r";alloc=.*", "", f[5]) if len(f) > 5 else "replay"))
+    out = os.path.join(cc.rundir(R), "child-out")
+    failures, n = run_children(R, hexe, cases, out)
+    print(open(out).read()[:3000])
+    for idx, kind, tail in failures:
+        R.oracle_failure("CRASH:%s:replay" % kind, "the decoder %s on the replayed input" % kind, dict(trace_line=line[:6000], child_output=tail))
+    dl = [l.rstrip("\n") for l in open(out) if l.startswith(("D ", "HR "))]
+    trace = os.path.join(cc.rundir(R), "trace")
+    open(trace, "w").write("\n".join(dl) + "\n")
+    rc, rout, lines = cc.run_runner(R, rexe, trace)
+    print(rout[:2000])
+    for l in rout.split("\n"):
+        if l.startswith("DIVERGE "):
+            R.divergence("replay: " + l[:300], dict(trace_line=line[:6000]))
+        elif l.startswith("ORACLE "):
+            R.oracle_failure("replay:" + l.split(" ")[2], l[:300], dict(trace_line=line[:6000]))
+    for l in dl:
+        if l.startswith("HR ") and l.split(" ")[4].split(":")[0] not in ("ok", "err"):
+            R.oracle_failure("CRASH:replay", l[:300], dict(trace_line=line[:6000]))
+    R.add_cases(len(dl), 0, [line[:300]])
+    return R.finish()
+
+
+def replay(R, path):
+    """replay must not clobber the evidence of the last real run"""
+    ev = os.path.join(vlib.EVID, R.pid + ".json")
+    old = open(ev, "rb").read() if os.path.exists(ev) else None
+    try:
+        return _replay(R, path)
+    finally:
+        if old is not None:
+            open(ev, "wb").write(old)
